@@ -1235,6 +1235,10 @@ class FT3(FT2):
             text = self.line(ind, "call (%s) (fun %s =>" % (head, tuple_text(names)[1]), s)
             text += _close(self.block(rest, env, ctx, ind, at), ")")
             return self.wrap(H, ind, text)
+        if isinstance(t, ast.Name) and isinstance(v, ast.Name):
+            tv = env.types.get(v.id)
+            if is_dict(tv) or tv in (CHARLIST, BOARDLIST, EMPTYDICT, OSTRLIST):
+                self.fail(s, "assignment of a %s to another name (aliasing) is not supported" % tname(tv))
         if isinstance(t, ast.Name):
             x = t.id
             # x = {} / x = [] with a learnt type
